@@ -27,8 +27,10 @@ from mc.letters import rs
 from mc.observe import obs_key
 
 # ---------------------------------------------------------------------------------------------------
-# tolerances (DESIGN.md 3/C11; worst error seen on the unchanged tree, seeds 0..9: mean 4e-15,
-# eigenvalues 2e-14 * l_max, projector 1e-12, precision 4e-12 * max|Q|)
+# tolerances (DESIGN.md 3/C11).  Worst scaled error on the unchanged tree under the guard below (both tiers,
+# seeds 0..4; the decades are recorded in the evidence as err-* outcomes): mean 1e-15, eigenvalues 1e-13,
+# projector 1e-11, spectral sum 1e-13, precision 1e-12 - every tolerance keeps a margin >= 1e4 above that, and
+# the mutants of mutants/C11-*.patch move the result by > 5e-3 in every case reported.
 # ---------------------------------------------------------------------------------------------------
 TOL_MEAN = 1e-9  # absolute, times max(1, max|data|)
 TOL_EIG = 1e-7  # relative to the largest eigenvalue of the batch model
@@ -41,14 +43,14 @@ TOLS = {"mean": TOL_MEAN, "eig": TOL_EIG, "proj": TOL_PROJ, "spec": TOL_EIG, "pr
 # general-position guard: what "a data set" means for this check (printed in the evidence)
 RANK_THR = 1e-8  # singular values below RANK_THR * s_max count as zero ...
 RANK_ZERO = 1e-12  # ... and must then really be below RANK_ZERO * s_max
-RANK_MIN = 1e-3  # the smallest non-zero singular value of every prefix is >= RANK_MIN * s_max
+RANK_MIN = 5e-3  # the smallest non-zero singular value of every prefix is >= RANK_MIN * s_max
 COND_MAX = 2.0e3  # condition number of every block covariance of every GMRF prefix
 
 # ---------------------------------------------------------------------------------------------------
 # PCA letters
 # ---------------------------------------------------------------------------------------------------
 PCA_DATA = ["gen", "zero", "lowrank"]
-# gen     : full spectrum 5,3,2,1.2,... plus a mean of size 3
+# gen     : full spectrum 5,3,2,1.4,1,0.7,... plus a mean of size 3
 # zero    : dyadic values; the initial batch has EXACTLY zero mean (ipca's `np.all(m_a == 0)` shortcut)
 # lowrank : rank-2 cloud plus a mean: every increment lies in the current subspace (eps truncation)
 PCA_FEED = ["array", "list", "pc", "pciter"]
@@ -70,6 +72,26 @@ def _svals_ok(M):
     return True
 
 
+_MEMO = {}
+
+
+def _memo(fn):
+    """pure function of its (hashable) arguments -> computed once per worker; the array is handed out read-only."""
+
+    def wrapped(*args):
+        key = (fn.__name__,) + args
+        if key not in _MEMO:
+            X = fn(*args)
+            X.flags.writeable = False
+            _MEMO[key] = X
+        return _MEMO[key]
+
+    wrapped.__name__ = fn.__name__
+    wrapped.__doc__ = fn.__doc__
+    return wrapped
+
+
+@_memo
 def pca_data(seed, d, n, kind, b):
     """n x d data matrix of letter `kind`; deterministic redraw until every prefix (centred and raw) has an
     unambiguous numerical rank."""
@@ -79,7 +101,7 @@ def pca_data(seed, d, n, kind, b):
             k = min(n - 1, d)
             u, _ = np.linalg.qr(r.randn(n, n))
             v, _ = np.linalg.qr(r.randn(d, d))
-            s = np.array([5.0, 3.0, 2.0, 1.2, 0.7, 0.4, 0.25, 0.15, 0.1, 0.06, 0.04][:k])
+            s = np.array([5.0, 3.0, 2.0, 1.4, 1.0, 0.7, 0.5, 0.35, 0.25, 0.18, 0.12][:k])
             X = (u[:, :k] * s).dot(v[:, :k].T)
             X = X - X.mean(axis=0) + 3.0 * r.rand(d)
         elif kind == "zero":
@@ -201,6 +223,7 @@ def gmrf_definition(P, name, k, mode, bias):
     return {"n": P.shape[0], "mean": P.mean(axis=0), "prec": Q}
 
 
+@_memo
 def gmrf_data(seed, nv, k, n):
     """n x (nv*k) correlated data; redraw until every block covariance (single vertex, every vertex pair in
     both edge modes) of every prefix >= GMRF_MIN_BATCH has condition number <= COND_MAX."""
@@ -233,6 +256,15 @@ def _dense(p):
 
 def _vec(m):
     return np.asarray(m.as_vector() if hasattr(m, "as_vector") else m, dtype=float)
+
+
+def _try(fn):
+    """(value, None) or (None, 'Type: message'): menpo raising on valid input is reported as a failure of the step that
+    called it (with its replayable history), never swallowed."""
+    try:
+        return fn(), None
+    except Exception as e:  # noqa
+        return None, "%s: %s" % (type(e).__name__, str(e)[:300])
 
 
 class C11(Check):
@@ -269,13 +301,15 @@ class C11(Check):
                             for b in range(2, n):
                                 out.append(("pca", d, n, centred, kind, feed, 1, b))
         # every composition executed as its own trace (no merging): array feed for every n in scope
-        # (thorough, n = 12: 1024 compositions per letter), the other feeds at n = 6 (thorough)
+        # (n = 12: initial batch >= 4, i.e. 256 compositions per letter; the merging roots above execute every 2- and
+        # 3-part composition of every prefix literally, because every state they reach at level 1 is expanded once
+        # more), the other feeds at n = 6 (thorough)
         for n in [6, 8] if self.tier == "quick" else ns:
             for d in ds:
                 for centred in (1, 0):
                     for kind in PCA_DATA:
                         for feed in PCA_FEED if (self.tier == "thorough" and n == 6) else ["array"]:
-                            for b in range(2, n):
+                            for b in range(2 if n <= 8 else 4, n):
                                 out.append(("pca", d, n, centred, kind, feed, 0, b))
         # ("gmrf", graph, mode, sparse, bias, k, feed, n, initial batch, merge)
         n = 9 if self.tier == "quick" else 12
@@ -286,11 +320,21 @@ class C11(Check):
                 for sparse in (1, 0):
                     for bias in (0, 1):
                         for k in (2, 1):
-                            for feed in GMRF_FEED:
+                            # the feed letters only change how the data matrix is assembled: 3-vertex graphs carry them all
+                            for feed in GMRF_FEED if GRAPHS[g][1] == 3 else ["array"]:
                                 for b in range(GMRF_MIN_BATCH, n):
                                     out.append(("gmrf", g, mode, sparse, bias, k, feed, n, b, 1))
                             for b in range(GMRF_MIN_BATCH, n):
                                 out.append(("gmrf", g, mode, sparse, bias, k, "array", n, b, 0))
+        # the driver hands out consecutive chunks of roots: deal the roots, heaviest first, into 128 groups of equal
+        # estimated cost so that no worker ends up with all the 1024-composition roots (order is a fixed function of the tier)
+        def cost(r):
+            incs, merge = self._max_incs(r), (r[6] if r[0] == "pca" else r[9])
+            return (incs * (incs + 1)) // 2 if merge else 2 ** incs * max(2, incs)
+
+        ranked = sorted(range(len(out)), key=lambda i: (-cost(out[i]), i))
+        groups = 128
+        out = [out[i] for g in range(groups) for i in ranked[g::groups]]
         self._roots = out
         return out
 
@@ -318,11 +362,11 @@ class C11(Check):
         from menpo.model import PCAModel, PCAVectorModel
 
         _, d, n, centred, kind, feed, merge, b = root
-        X = pca_data(self.seed, d, n, kind, b)
+        X = pca_data(self.seed, d, n, kind, b if kind == "zero" else 0)
         st = {"fam": "pca", "root": root, "X": X, "n": n, "d": d, "centred": bool(centred), "feed": feed, "merge": merge, "consumed": b, "hist": (), "pc_shape": _pc_shape(d), "scale": max(1.0, float(np.abs(X).max()))}
         data, kw = self._feed_pca(st, X[:b])
         cls = PCAVectorModel if feed in ("array", "list") else PCAModel
-        st["model"] = cls(data, centre=bool(centred), **kw)
+        st["model"], st["error"] = _try(lambda: cls(data, centre=bool(centred), **kw))
         st["ref"] = pca_definition(X[:b], bool(centred))
         return st
 
@@ -349,7 +393,7 @@ class C11(Check):
         st = {"fam": "gmrf", "root": root, "X": X, "n": n, "g": g, "nv": nv, "k": k, "mode": mode, "sparse": bool(sparse), "bias": bias, "feed": feed, "merge": merge, "consumed": b, "hist": (), "scale": max(1.0, float(np.abs(X).max()))}
         data, kw = self._feed_gmrf(st, X[:b])
         cls = GMRFVectorModel if feed in ("array", "list") else GMRFModel
-        st["model"] = cls(data, make_graph(g), mode=mode, sparse=bool(sparse), bias=bias, dtype=np.float64, incremental=True, **kw)
+        st["model"], st["error"] = _try(lambda: cls(data, make_graph(g), mode=mode, sparse=bool(sparse), bias=bias, dtype=np.float64, incremental=True, **kw))
         st["ref"] = gmrf_definition(X[:b], g, k, mode, bias)
         return st
 
@@ -374,6 +418,8 @@ class C11(Check):
         return {"mean": st["scale"], "prec": float(np.abs(ref["prec"]).max())}
 
     def canon(self, st):
+        if st["model"] is None:
+            return (st["root"], "initial-batch-model-could-not-be-built")
         o = self._observe(st)
         ref = st["ref"]
         sc = self._scales(st, ref)
@@ -395,6 +441,8 @@ class C11(Check):
 
     # ------------------------------------------------------------------ alphabet
     def ops(self, st, level):
+        if st["model"] is None:
+            return []
         return [("inc", j) for j in range(1, st["n"] - st["consumed"] + 1)]
 
     # ------------------------------------------------------------------ step
@@ -409,7 +457,15 @@ class C11(Check):
             data, kw = self._feed_pca(st, rows)
         else:
             data, kw = self._feed_gmrf(st, rows)
-        ret = m.increment(data, **kw)
+        if verify:
+            # what increment raises on valid data is a finding of this step, reported with its history (and
+            # reproducible by --replay), not a crash of the harness
+            ret, err = _try(lambda: m.increment(data, **kw))
+            if err:
+                self.note("%s:raised" % ("pca-step" if st["fam"] == "pca" else "gmrf-step"))
+                return [Failure(self._where(st), "increment-raised", "increment(%d samples) after %r raised %s (root %r)" % (j, st["hist"], err, st["root"]))]
+        else:
+            ret = m.increment(data, **kw)
         st["consumed"] = c = c0 + j
         st["hist"] = st["hist"] + (j,)
         P = st["X"][:c]
@@ -424,8 +480,11 @@ class C11(Check):
             fails.append(Failure(self._where(st), "increment-returns-none", "increment returned %r" % (ret,)))
         o = self._observe(st)
         sc = self._scales(st, ref)
-        batch = self._batch(st, P)
-        fails += self._compare(st, o, batch, sc, "", "menpo batch model of the %d samples consumed" % c, op)
+        batch, err = _try(lambda: self._batch(st, P))
+        if err:
+            fails.append(Failure(self._where(st), "batch-model-raised", "the batch model of the %d samples consumed cannot be built: %s (root %r)" % (c, err, st["root"])))
+        else:
+            fails += self._compare(st, o, batch, sc, "", "menpo batch model of the %d samples consumed" % c, op)
         fails += self._compare(st, o, ref, sc, "-vs-definition", "definition on the %d samples consumed" % c, op)
         # outcome classes
         if st["fam"] == "pca":
@@ -508,6 +567,9 @@ class C11(Check):
     def check_root(self, st, root):
         """zero increments: the initial batch model is itself a batch model - compared with the definition, so that a
         broken comparator cannot make the step oracle vacuous."""
+        if st["model"] is None:
+            self.note("root:%s-raised" % st["fam"])
+            return [Failure(self._where(st), "initial-batch-model-raised", "the model of the initial batch cannot be built: %s (root %r)" % (st["error"], root))]
         o = self._observe(st)
         sc = self._scales(st, st["ref"])
         fails = self._compare(st, o, st["ref"], sc, "-vs-definition", "definition on the initial batch", None)
@@ -550,9 +612,6 @@ class C11(Check):
         out = ["outcome %s never produced" % n for n in need if not notes.get(n)]
         if not getattr(stats, "merged", 0):
             out.append("no two chunkings ever met in one canonical state (confluence never exercised)")
-        if not getattr(stats, "failures", None):
-            # every history of a merging root must end in exactly one state per prefix
-            pass
         return out
 
     def rule(self):
